@@ -124,6 +124,8 @@ def build_program(shape: str, pattern: str, deps: tuple, extras: str, pos: str =
                 steps.append(("add", "RA", resname(p, phase), f"{p}:{phase}", extras == "tdres"))
             if extras == "svc" and phase == "start" and not nd.get("children"):
                 steps.append(("svc", f"svc:{p}", [("forever",)]))
+            if extras == "gen" and phase == "start":
+                nd["gen_start"] = True
             nd[phase] = steps
     return {"shape": shape, "pattern": pattern, "deps": [list(d) for d in deps], "extras": extras, "pos": pos, "pub": pub, "tree": spec}
 
@@ -183,7 +185,7 @@ class C05(E1Check):
                     step = 1 if tier == "thorough" else max(1, len(pairs) // 25)
                     depsets += [tuple(p) for p in pairs[::step]]
                 for deps in depsets:
-                    for extras in (("plain", "tdres", "svc") if not deps else ("plain",)):
+                    for extras in (("plain", "tdres", "svc", "gen") if not deps else ("plain",)):
                         for pos in (("before", "after") if deps else ("before",)):
                             for pub in (("res", "sync", "async") if len(deps) == 1 else ("res",)):
                                 if pattern == "inherited" and (pub != "res" or pos == "after"):
